@@ -53,6 +53,9 @@ def _define(prefix):
     def check_init(self, description, rule, available_field_names, location_of_definition=None):
         checks.AbstractCheck.__init__(self, description, rule, available_field_names, location_of_definition)
         self.behaviour = rule.strip()
+        if self.behaviour == "badrule":
+            # the way the documented example check does it (ranges.Range(rule) raises an InterfaceError without location)
+            raise errors.InterfaceError("recording check %s cannot make sense of its rule" % description)
 
     def reset(self):
         LOG.append(["reset", self.description])
@@ -409,6 +412,37 @@ def check_case(ctx, model, table, plan):
     ctx.case(case, nontrivial)
 
 
+def declaration_errors(ctx, index):
+    """What user classes refuse when the CID is read is an interface error that names the row, like for built-ins."""
+    from cutplace import errors, interface
+
+    register()
+    rng = ctx.rng("decl", index)
+    rows = [["D", "Format", "Delimited"]]
+    for k in range(rng.randint(0, 3)):
+        rows.append(["F", "plain%d" % k, "", "", "", "Text", ""])
+    what = ["check-rule-refused-by-constructor", "example-refused-by-value-hook", "example-refused-with-range-error"][index % 3]
+    if what == "check-rule-refused-by-constructor":
+        rows.append(["F", "r0", "", "", "", "Rec", "any"])
+        rows.append(["C", "refused", "Rec", "badrule"])
+    else:
+        rows.append(["F", "r0", "REJ" if what == "example-refused-by-value-hook" else "REJR", "", "", "Rec", "any"])
+    bad_row = len(rows)
+    case = {"cid_rows": rows, "what": what}
+    ctx.case(case, True)
+    ctx.count("declaration-errors.judged")
+    try:
+        interface.Cid().read("<c20>", rows)
+    except errors.InterfaceError as error:
+        if "(R%dC" % bad_row not in str(error):
+            ctx.violation("C20:declaration-error-without-row:%s" % what, case, "the refusal of a user class at declaration does not name the row", expected="R%d" % bad_row, observed=str(error))
+        return
+    except Exception as error:
+        ctx.violation("C20:declaration-error-type:%s:%s" % (what, type(error).__name__), case, "the refusal of a user class at declaration is no interface error", expected="InterfaceError", observed=error)
+        return
+    ctx.violation("C20:declaration-accepted:%s" % what, case, "what the user class refuses was accepted", observed="accepted")
+
+
 def gen_plan(rng, model, table):
     plan = []
     for _ in range(rng.randint(1, 3)):
@@ -463,6 +497,11 @@ logging.disable(logging.CRITICAL)
 import cutplace
 from cutplace import interface, errors
 interface.import_plugins(sys.argv[1])
+# what a program does between importing its plugins and using them: allocate (the collector runs), maybe collect explicitly
+junk = [[str(i), [i]] for i in range(200000)]
+del junk
+import gc
+gc.collect()
 cid = interface.Cid(sys.argv[2])
 try:
     for _ in cutplace.rows(cid, sys.argv[3], on_error="continue"):
@@ -544,6 +583,9 @@ def run(ctx):
             ctx.count("cids.with-indirect-subclasses")
         model.via_add_check = bool(model.rec_checks) and rng.random() < 0.17
         check_case(ctx, model, table, gen_plan(rng, model, table))
+    for i in range(ctx.pick(60, 600)):
+        if ctx.mine(i):
+            declaration_errors(ctx, i)
     for i in range(ctx.pick(12, 300)):
         if ctx.mine(i):
             plugin_case(ctx, i)
@@ -551,6 +593,10 @@ def run(ctx):
 
 
 def replay(ctx, case):
+    if "cid_rows" in case:
+        for i in range(3):
+            declaration_errors(ctx, i)
+        return
     c = case["cid"]
     model = RM.CidModel.from_json(c)
     model.rec_checks = c["rec_checks"]
